@@ -62,15 +62,8 @@ def valOK : Val → Bool
   | .atom a => atomOK a
   | .list xs => xs.all atomOK
 
-def atomNoCR : Atom → Bool
-  | .str s => !s.contains '\r'
-  | _ => true
-
-/-- character data: as `valOK`, and no carriage return in literal text -/
-def dataValOK : Val → Bool
-  | .none => true
-  | .atom a => atomOK a && atomNoCR a
-  | .list xs => xs.all (fun a => atomOK a && atomNoCR a)
+/-- character data (since the repair of c03-cr-in-text carriage returns are fine) -/
+def dataValOK (v : Val) : Bool := valOK v
 
 def hasValue : Val → Bool
   | .none => false
@@ -84,12 +77,12 @@ def elemNameOK (q : Str) : Bool :=
   | none => false
 
 /-- an attribute name the writer can write correctly: local part an NCName
-(not the bare `xmlns`), namespace declarable and different from the user's
-default namespace -/
-def attrNameOK (d : Option Str) (n : EName) : Bool :=
+(not the bare `xmlns`), namespace declarable.  (Attributes in the user's default
+namespace are fine since the repair of c03-default-ns-attribute.) -/
+def attrNameOK (_d : Option Str) (n : EName) : Bool :=
   isNCName n.2 && (match n.1 with
     | none => n.2 != xmlnsPrefix
-    | some u => uriOK u && some u != d)
+    | some u => uriOK u)
 
 def attrOK (env : NsEnv) (d : Option Str) (a : Str × Val) : Bool :=
   (match clark a.1 with
@@ -123,23 +116,14 @@ def valNoNs : Val → Bool
   | .atom a => atomNoNs a
   | .list xs => xs.all atomNoNs
 
-/-- the value may encode to a non-empty string -/
-def mayBeText : Val → Bool
-  | .none => false
-  | .list [] => false
-  | .atom (.str s) => !s.isEmpty
-  | _ => true
-
-/-- Structural conditions on a forest.  `first`: the enclosing element's start
-tag is still pending (nothing of its content seen yet); `afterData`: the
-previous event was a DATA event.  A DATA event that is not the first content
-event must not carry a QName with a namespace (its prefix would be created
-after the declarations were written) and must not carry text directly after
-another DATA event (it would be written after the end tag). -/
-def shapeOK : Bool → Bool → Content → Bool
-  | _, _, .nil => true
-  | first, afterData, .data v rest =>
-    (first || (valNoNs v && !(afterData && mayBeText v))) && shapeOK false true rest
-  | _, _, .child _ _ kids rest => shapeOK true false kids && shapeOK false false rest
+/-- Structural condition on a forest.  `first`: the enclosing element's start
+tag is still pending (nothing of its content seen yet).  A DATA event that is
+not the first content event must not carry a QName with a namespace (its prefix
+would be created after the declarations were written).  Consecutive DATA events
+are fine since the repair of c03-consecutive-text. -/
+def shapeOK : Bool → Content → Bool
+  | _, .nil => true
+  | first, .data v rest => (first || valNoNs v) && shapeOK false rest
+  | _, .child _ _ kids rest => shapeOK true kids && shapeOK false rest
 
 end Spec.Hyps
